@@ -5,6 +5,7 @@ from props import common
 LEVEL = 'proof'
 MODULES = ['TlsModel.Props.C11']
 Z32 = b'\x11' * 32
+VERS = (0x0000, 0x0002, 0x0200, 0x0300, 0x0301, 0x0302, 0x0303, 0x0304, 0x7f12, 0x7f1c, 0xfeff, 0xfefd, 0xfefc, 0xffff)
 KNOWN_EXT = {0, 1, 5, 10, 11, 13, 15, 16, 18, 21, 22, 23, 28, 35, 40, 41, 42, 43, 44, 45, 48, 49, 51, 13172, 0xff01, 0xffce}
 
 
@@ -26,6 +27,27 @@ def fields():
     f = []
     f.append(('raw_record_type', 256, lambda v: ('tls_raw', bytes([v, 3, 3, 0, 2, 7, 8]), 'ok 0 (Raw (Hdr %d 771 2) %s)' % (v, S(5, 2)))))
     f.append(('encrypted_record_type', 256, lambda v: ('tls_encrypted', bytes([v, 3, 3, 0, 2, 7, 8]), 'ok 0 (Enc (Hdr %d 771 2) %s)' % (v, S(5, 2)))))
+    # joint sweeps: a code point must be preserved whatever the *other* code points of the structure are (a check keyed
+    # on a combination, e.g. "TLS 1.3 records must be application data", is invisible when one field varies alone)
+    for ver in VERS:
+        if ver != 0x0303:
+            f.append(('raw_record_type@%04x' % ver, 256, lambda v, ver=ver: ('tls_raw', bytes([v]) + u16(ver) + b'\0\2\7\x08', 'ok 0 (Raw (Hdr %d %d 2) %s)' % (v, ver, S(5, 2)))))
+            f.append(('encrypted_record_type@%04x' % ver, 256, lambda v, ver=ver: ('tls_encrypted', bytes([v]) + u16(ver) + b'\0\2\7\x08', 'ok 0 (Enc (Hdr %d %d 2) %s)' % (v, ver, S(5, 2)))))
+            f.append(('heartbeat_type@%04x' % ver, 256, lambda v, ver=ver: ('tls_plaintext', bytes([24]) + u16(ver) + bytes([0, 5, v, 0, 2, 9, 9]), 'ok 0 (Plain (Hdr 24 %d 5) [(Hb %d 2 %s)])' % (ver, v, S(8, 2)))))
+            f.append(('alert@%04x' % ver, 65536, lambda v, ver=ver: ('tls_plaintext', bytes([21]) + u16(ver) + b'\0\2' + u16(v), 'ok 0 (Plain (Hdr 21 %d 2) [(Alert %d %d)])' % (ver, v >> 8, v & 255))))
+            f.append(('dtls_record_type@%04x' % ver, 256, lambda v, ver=ver: ('dtls_header', bytes([v]) + u16(ver) + b'\0\1' + b'\0' * 6 + b'\0\0', 'ok 0 (DHdr %d %d 1 0 0)' % (v, ver))))
+        f.append(('client_hello_cipher@%04x' % ver, 65536, lambda v, ver=ver: ('msg_handshake', hs(1, u16(ver) + Z32 + b'\0' + b'\0\4' + u16(v) + u16(65535 - v) + b'\2' + bytes([v & 255, 255 - (v & 255)])),
+                  'ok 0 (Hs (ClientHello %d %s none [%d %d] [%d %d] none))' % (ver, S(6, 32), v, 65535 - v, v & 255, 255 - (v & 255)))))
+    for ver in (0x0300, 0x0301, 0x0302, 0x0303):
+        f.append(('server_hello_cipher_comp@%04x' % ver, 65536, lambda v, ver=ver: ('msg_handshake', hs(2, u16(ver) + Z32 + b'\0' + u16(v) + bytes([v >> 8])),
+                  'ok 0 (Hs (ServerHello %d %s none %d %d none))' % (ver, S(6, 32), v, v >> 8))))
+    f.append(('server_hello_d18_cipher', 65536, lambda v: ('msg_handshake', hs(2, u16(0x7f12) + Z32 + u16(v) + b'\0\0'),
+              'ok 0 (Hs (ServerHello13d18 32530 %s %d (some +0)))' % (S(6, 32), v))))
+    for ct, payload, val in ((20, b'\1', '[CCS]'), (23, b'\7\x08', None), (22, hs(0, b''), '[(Hs HelloRequest)]')):
+        def recver(v, ct=ct, payload=payload, val=val):
+            vv = val if val is not None else '[(App %s)]' % S(5, len(payload))
+            return ('tls_plaintext', bytes([ct]) + u16(v) + u16(len(payload)) + payload, 'ok 0 (Plain (Hdr %d %d %d) %s)' % (ct, v, len(payload), vv))
+        f.append(('record_version/type%d' % ct, 65536, recver))
     f.append(('record_version', 65536, lambda v: ('tls_plaintext', bytes([21]) + u16(v) + b'\0\2\1\0', 'ok 0 (Plain (Hdr 21 %d 2) [(Alert 1 0)])' % v)))
     f.append(('raw_record_version', 65536, lambda v: ('tls_raw', bytes([22]) + u16(v) + b'\0\1\7', 'ok 0 (Raw (Hdr 22 %d 1) %s)' % (v, S(5, 1)))))
     f.append(('alert_level_x_description', 65536, lambda v: ('msg_alert', u16(v), 'ok 0 (Alert %d %d)' % (v >> 8, v & 255))))
